@@ -119,15 +119,28 @@ Theorem C05_multinode_seek_end_outside_refused : forall s off,
 Proof. exact seek_end_refused. Qed.
 Print Assumptions C05_multinode_seek_end_outside_refused.
 
+(* consume(n) - also through the seek callback used as a skip callback for requests over 64k, and across
+   any number of node borders - advances the stream by exactly n when n bytes are left, and is refused
+   (ARCHIVE_FATAL) when fewer are left.  False of the pinned code for every node but the first. *)
+Theorem C05_multinode_consume : forall s n,
+  SInv s ->
+  SInv (snd (consume s n)) /\ same_cfg s (snd (consume s n)) /\
+  (0 <= n <= zlen (pending s) + zlen (rest s) ->
+     fst (consume s n) = n /\ fpos (snd (consume s n)) = fpos s + n) /\
+  (n < 0 \/ zlen (pending s) + zlen (rest s) < n -> fst (consume s n) = M_FATAL).
+Proof. exact consume_spec. Qed.
+Print Assumptions C05_multinode_consume.
+
 (* non-vacuity: three nodes with an empty one in the middle of the set, a seek into the last node, a
    relative seek back across a border and a seek from the end *)
 Example C05_multinode_nonvacuous :
   let s0 := mopen [[1;2;3]; []; [4;5]; [6]]%N 2 in
-  ok_run s0 [MSeek 4 0; MRead; MSeek (-3) 1; MRead; MSeek (-1) 2; MRead; MRead] /\
-  snd (mrun s0 [MSeek 4 0; MRead; MSeek (-3) 1; MRead; MSeek (-1) 2; MRead; MRead]) =
-    [MPos 4 4; MBlk [5]%N 5; MPos 2 2; MBlk [3]%N 3; MPos 5 5; MBlk [6]%N 6; MBlk [] 6].
+  ok_run s0 [MSeek 4 0; MRead; MSeek (-3) 1; MRead; MSeek (-1) 2; MRead; MRead; MSeek 1 0; MConsume 4; MRead] /\
+  snd (mrun s0 [MSeek 4 0; MRead; MSeek (-3) 1; MRead; MSeek (-1) 2; MRead; MRead; MSeek 1 0; MConsume 4; MRead]) =
+    [MPos 4 4; MBlk [5]%N 5; MPos 2 2; MBlk [3]%N 3; MPos 5 5; MBlk [6]%N 6; MBlk [] 6; MPos 1 1; MCons 4 5; MBlk [6]%N 6].
 Proof.
   split; [|vm_compute; reflexivity].
-  cbn [ok_run]. repeat split; try (eexists; split; [vm_compute; reflexivity|vm_compute; split; discriminate]).
+  cbn [ok_run]. repeat split; try (eexists; split; [vm_compute; reflexivity|vm_compute; split; discriminate]);
+    try (vm_compute; discriminate).
 Qed.
 End MultiNode.
